@@ -816,6 +816,27 @@ def text_strategy(closed, methods):
         if 50 <= draw(st.integers(0, 99)) < 53:  # (not the low end: Hypothesis favours boundary values)
             # forms of the Python grammar the DSL documents as unsupported: counted as rejections
             return g.pick(OUTSIDE_FORMS), 0
+        if 60 <= draw(st.integers(0, 99)) < 72:
+            # unary sign / binary operator interaction templates: a sign in front of a parenthesised product,
+            # quotient, floor division, remainder or power whose LEFT operand is a literal (folding the sign into
+            # that literal is only right for * and /), and the same without the parentheses
+            L = g.pick(["7", "5", "3", "2.5", "7.5", "1"])
+            N = g.pick(NUM_NAMES)
+            M = g.pick(NUM_NAMES + ["2", "3"])
+            op = g.pick(["//", "//", "%", "%", "*", "/", "**", "-", "+"])
+            sign = g.pick(["-", "-", "+"])
+            t = g.pick(
+                [
+                    f"{sign}({L} {op} {N})",
+                    f"{sign}({L} {op} {N}) {g.pick(['+', '*', '-'])} {M}",
+                    f"{M} {g.pick(['+', '*', '-'])} {sign}({L} {op} {N})",
+                    f"{sign}{L} {op} {N}",
+                    f"{sign}({N} {op} {L})",
+                    f"{sign}({L} {op} {N} {op} {M})" if op != "**" else f"{sign}({L} {op} {N})",
+                    f"{sign}({sign}{L} {op} {N})",
+                ]
+            )
+            return t, 0
         g.left = draw(st.integers(3, MAX_TOKENS)) if draw(st.integers(0, 99)) < 85 else draw(st.integers(1, 2))
         if draw(st.integers(0, 99)) < 45:
             g.or_test(0)
